@@ -5,8 +5,7 @@ MODULE = "StorageModel.Properties.C08"
 THEOREMS = ["table_is_expected", "delivery_is_expected", "events_exactly_once", "events_count",
             "constraint_posts_exactly_once", "events_final_state_create", "events_final_state_update",
             "events_last_state_delete", "child_change_parent_event", "plain_parent_no_child_event",
-            "rolled_back_no_events", "rejected_op_tx_fails", "commit_actions_once_partial",
-            "commit_actions_once_update", "batch_runs_no_tx_complete", "commit_actions_once_fullStatement_fails"]
+            "rolled_back_no_events", "rejected_op_tx_fails", "commit_actions_once", "batch_runs_tx_complete"]
 
 TABLE_OBLIGATIONS = [
     "table_is_expected (Generated/CrudReturns.lean, regenerated from boltz/store_crud.go and boltz/store.go)",
@@ -23,7 +22,7 @@ def nontrivial(case, impl):
     return None
 
 
-MATCHERS = {"batch_no_tx_complete": flow.matcher_batch_no_tx_complete}
+MATCHERS = {}  # no open finding (Db.Batch / tx-complete listeners: fixed in cb70ebf)
 
 RULE = ("(a) registration matrix: each of AddEntityEventListener / AddEntityEventListenerF / AddListener / "
         "AddEntityIdListener x 12 change-type lists (single sync / async kinds, all sync, all async, sync+async of one "
@@ -44,7 +43,6 @@ def run(ctx, replay_cases=None):
         "a listener callback cannot see which of its registered change types fired; deliveries are compared as (listener, rendered entity)",
         "commit actions belong to the MutateContext: a context used for a second transaction runs the actions registered during the first one again (reproduced, stated per context-and-transaction)",
         "ids created through the child store are never created through the parent store before (C03/C15's subject)",
-        "the spec demands tx-complete listeners once per committed transaction for Db.Batch too; the code's Db.Batch runs none (known finding, matcher batch_no_tx_complete; the model follows the code)",
     ]
     return flow.run_flow(ctx, "c08", MODULE, THEOREMS, MATCHERS, nontrivial, RULE,
                          table_obligations=TABLE_OBLIGATIONS, replay_cases=replay_cases)
